@@ -307,6 +307,9 @@ def systematic():
     return cs
 
 
+hist.DRIVER_JOBS["c19_driver.py"] = 6      # every case builds its own two objects: the cases are independent
+
+
 def run(ctx):
     ok, log = ctx.proofs(PROPS)
     ctx.cov["trusted_base"] += [
@@ -323,7 +326,7 @@ def run(ctx):
                        "the steps. A case is non-trivial if at least one injected fault fired; distinct = distinct "
                        "(operation, plan) lists")
     rnd = random.Random(ctx.seed)
-    n, maxlen = (350, 8) if ctx.tier == "quick" else (9000, 14)
+    n, maxlen = (600, 8) if ctx.tier == "quick" else (24000, 14)
     if ctx.replay:
         cases = [json.load(open(ctx.replay))["replay"]["case"]]
     else:
@@ -334,5 +337,5 @@ def run(ctx):
         ctx.sample(c)
     hist.run(ctx, "c19_driver.py", cases, to_term, HEADER, CASE_T, key_fn, describe, nontrivial,
              relation="C19.Corr.corr_codes (Model.step under the same fault plan = instrumented HasTraits object, twin included)",
-             shard=400, first_step_only=True)
+             shard=120, first_step_only=True)
     proof_gate(ctx, ok, log, PROPS)
